@@ -299,6 +299,36 @@ struct Rendered {
     ops_valid: Result<(), String>,
 }
 
+/// Byte sink that implements only `write` and `flush`, takes at most `cap` bytes per call and
+/// optionally answers `Interrupted` on every other call.
+struct Sink {
+    out: Vec<u8>,
+    cap: usize,
+    interrupt: bool,
+    calls: usize,
+}
+
+impl Sink {
+    fn new(cap: usize, interrupt: bool) -> Sink {
+        Sink { out: vec![], cap, interrupt, calls: 0 }
+    }
+}
+
+impl std::io::Write for Sink {
+    fn write(&mut self, buf: &[u8]) -> std::io::Result<usize> {
+        self.calls += 1;
+        if self.interrupt && self.calls % 2 == 1 {
+            return Err(std::io::Error::new(std::io::ErrorKind::Interrupted, "interrupted"));
+        }
+        let n = buf.len().min(self.cap);
+        self.out.extend_from_slice(&buf[..n]);
+        Ok(n)
+    }
+    fn flush(&mut self) -> std::io::Result<()> {
+        Ok(())
+    }
+}
+
 fn render<T: DiffableStr + ?Sized>(
     alg: Algorithm,
     old: &T,
@@ -336,6 +366,88 @@ fn render<T: DiffableStr + ?Sized>(
         u.to_writer(&mut written2).unwrap();
         if u.to_string() != display || written2 != written || u.iter_hunks().count() != u.iter_hunks().count() {
             panic!("rendering the same UnifiedDiff object twice gives different results");
+        }
+        // environment answers of the byte sink: a writer that takes only a few bytes per call
+        // (and implements nothing but write/flush), the same behind a BufWriter and behind a
+        // trait object, and one that answers Interrupted on every other call
+        // (sinks with the header rendered, histories without, both on the Myers diff only: the
+        // formatter does not know which algorithm produced the ops)
+        for cap in if header && alg == Algorithm::Myers { vec![1usize, 3, usize::MAX] } else { vec![] } {
+            let mut sink = Sink::new(cap, false);
+            if let Err(e) = u.to_writer(&mut sink) {
+                panic!("to_writer into a writer accepting {} byte(s) per call fails: {}", cap, e);
+            }
+            if sink.out != written {
+                panic!(
+                    "to_writer into a writer accepting {} byte(s) per call emits {} but into a Vec {}",
+                    cap,
+                    lossy(&sink.out),
+                    lossy(&written)
+                );
+            }
+        }
+        if header && alg == Algorithm::Myers {
+            let mut sink = Sink::new(2, false);
+            {
+                let mut bw = std::io::BufWriter::with_capacity(5, &mut sink);
+                u.to_writer(&mut bw).unwrap();
+                std::io::Write::flush(&mut bw).unwrap();
+            }
+            let mut sink2 = Sink::new(usize::MAX, false);
+            {
+                let dynw: &mut dyn std::io::Write = &mut sink2;
+                u.to_writer(dynw).unwrap();
+            }
+            if sink.out != written || sink2.out != written {
+                panic!(
+                    "to_writer through a BufWriter / a trait object emits {} / {} but into a Vec {}",
+                    lossy(&sink.out),
+                    lossy(&sink2.out),
+                    lossy(&written)
+                );
+            }
+            let mut sink3 = Sink::new(4, true);
+            match u.to_writer(&mut sink3) {
+                Ok(()) => {
+                    if sink3.out != written {
+                        panic!("to_writer into a writer that is interrupted on every other call emits {} but into a Vec {}", lossy(&sink3.out), lossy(&written));
+                    }
+                }
+                Err(e) => {
+                    if e.kind() != std::io::ErrorKind::Interrupted || !written.starts_with(&sink3.out) {
+                        panic!("to_writer into a writer that is interrupted on every other call: {} after emitting {}", e, lossy(&sink3.out));
+                    }
+                }
+            }
+        }
+        // operation sequences on one formatter: used with other settings first, then set to the
+        // requested ones
+        for other in [radius.saturating_add(1), radius.saturating_sub(1), 0] {
+            if other == radius || header || alg != Algorithm::Myers {
+                continue;
+            }
+            let mut h = diff.unified_diff();
+            h.context_radius(other);
+            h.missing_newline_hint(false);
+            let _ = h.to_string();
+            let _ = h.iter_hunks().count();
+            h.header("x", "y");
+            let _ = h.to_string();
+            h.missing_newline_hint(true);
+            h.context_radius(radius);
+            if header {
+                h.header(HDR_A, HDR_B);
+                if h.to_string() != display {
+                    panic!("a UnifiedDiff first used with radius {} and other settings, then set to radius {}, renders differently from a fresh one", other, radius);
+                }
+            } else {
+                // a header cannot be unset: compare the hunks
+                let a: Vec<String> = h.iter_hunks().map(|x| x.to_string()).collect();
+                let b: Vec<String> = u.iter_hunks().map(|x| x.to_string()).collect();
+                if a != b {
+                    panic!("a UnifiedDiff first used with radius {} and other settings, then set to radius {}, yields different hunks from a fresh one", other, radius);
+                }
+            }
         }
         Rendered { display, written, ops_valid }
     })
